@@ -284,6 +284,19 @@ def run_property(ctx, prop, replay=None):
                 ctx.fail(f"{prop}:theorem-hypotheses-not-met", f"a plain single-worker graph does not meet the hypotheses (simple_b) of {thm}", d, False)
             ctx.coverage[f"graphs_covered_by_{thm}"] = len(single) - len(outside)
             ctx.coverage["single_worker_graphs"] = len(single)
+    if prop == "C02":
+        # the hypotheses of C02_no_path_errors (pwf_b: symmetric edges, root without parents and sole parent of the nodes below it,
+        # root registers its own) on every exported graph, any number of workers
+        from harness.common import coq_failing
+        res = coq_failing(ctx, travgen.IMPORTS, "trav_case", [c["term"] for c in cases], ["trav_pwf"],
+                          shard=max(1, len(cases) // 16 + 1), tag="pwf", timeout=900)
+        ctx.obligation("hypotheses:pwf_b-holds-of-exported-graphs", "correspondence", not res["trav_pwf"],
+                       f"{len(res['trav_pwf'])} of {len(cases)} exported graphs do not meet pwf_b")
+        for k in res["trav_pwf"][:1]:
+            d = travgen.replay_data(cases[k])
+            d["obligation"] = "hypotheses:pwf_b-holds-of-exported-graphs"
+            ctx.fail("C02:theorem-hypotheses-not-met", "an exported graph does not meet the hypotheses (pwf_b) of C02_no_path_errors", d, False)
+        ctx.coverage["graphs_covered_by_C02_no_path_errors"] = len(cases) - len(res["trav_pwf"])
     if prop == "C04":
         # the hypotheses of C04_mutual_exclusion on every exported graph: one owner per node, bridged classes agreeing on flat
         # (must always hold) and on the reuse scope (fails for mixed lxc/remote worker sets under a partial pool_scope: those
